@@ -261,8 +261,33 @@ def gen_line(rng, modes=True):
             "stream": stream, "hit": sorted(set(hit))}
 
 
-def gen_cases(rng, n, modes=True, line_share=0.12):
+def kind_sweep(rng, modes=True):
+    """line cases that put every kind-specific boundary text and null spelling into a column of that kind (one random
+    layout/position per text): a sweep over (kind, text), not a sample, so that one-column kinds (entrez, strand,
+    canonical, bool, uuid) meet each of their boundary texts in every run"""
+    by = {}
+    for annot in ANNOTS:
+        for j, (_, d) in enumerate(SP.layout(annot)["columns"]):
+            k = d["base"]["k"] if d["k"] == "mustnull" else d["k"]
+            by.setdefault(k, []).append((annot, j))
     out = []
+    for k in sorted(by):
+        for t in KIND_BOUNDARY.get(k, []) + [""]:
+            if any(c in t for c in "\t\n\r"):
+                continue
+            annot, j = rng.choice(by[k])
+            cols = SP.layout(annot)["columns"]
+            fields = [valid_text(rng, d).replace("\t", " ").replace("\n", " ").replace("\r", " ") for _, d in cols]
+            fields[j] = t
+            out.append({"kind": "line", "annot": annot, "fields": fields, "trail": rng.choice(["", "\n", "\r\n"]),
+                        "mode": rng.choice([1, 1, 2, 3]) if modes else 1, "lineno": rng.choice([None, 1, 7]),
+                        "stream": "kind-sweep", "hit": [j]})
+    return out
+
+
+def gen_cases(rng, n, modes=True, line_share=0.12):
+    out = kind_sweep(rng, modes) if n >= 1000 else []
+    n = max(0, n - len(out))
     for _ in range(n):
         out.append(gen_line(rng, modes) if rng.random() < line_share else gen_field(rng))
     return out
@@ -642,7 +667,7 @@ KIND_ODD_VALUES = {
     "text": [[4, ""], [4, " "], [4, "a\tb"], [4, "a\nb"], [0], [2, 0], [1, 0], [7, []]],
     "dna": [[4, ""], [4, "-"], [4, "A-C"], [4, "acgt"], [0], [4, "A\tC"]],
     "uuid": [[0], [4, "12345678-1234-5678-1234-567812345678"], [6, "12345678-1234-5678-1234-567812345678"], [4, ""]],
-    "seq": [[7, []], [7, [[4, ""]]], [7, [[4, ";"]]], [7, [[4, "a;b"]]], [7, [[4, "a\tb"]]], [8, [[4, "a"]]], [4, "a;b"], [0], [7, [[0]]], [7, [[1, 1]]]],
+    "seq": [[7, [[4, "BI;"], [4, "WUGSC"]]], [7, [[4, "a"], [4, ";"], [4, "b"]]], [7, [[4, "x;y"], [4, "z"]]], [7, []], [7, [[4, ""]]], [7, [[4, ";"]]], [7, [[4, "a;b"]]], [7, [[4, "a\tb"]]], [8, [[4, "a"]]], [4, "a;b"], [0], [7, [[0]]], [7, [[1, 1]]]],
     "enum": [[0], [4, "Yes"], [4, ""], [5, "NullableYesOrNoEnum", 0], [5, "PickEnum", 0], [5, "StrandEnum", 0], [1, 1]],
     "textorint": [[1, 1], [2, 7], [4, "007"], [4, "7"], [3, "7.0"], [0], [4, ""]],
 }
@@ -650,6 +675,31 @@ NULLABLE_FOREIGN = [["NullableStringColumn", [0]], ["NullableIntegerColumn", [0]
                     ["NullableDnaString", [0]], ["SequenceOfStrings", [7, []]], ["SequenceOfIntegers", [7, []]], ["EntrezGeneId", [0]],
                     ["NullableYesOrNo", [5, "NullableYesOrNoEnum", 0]], ["PickColumn", [5, "PickEnum", 0]], ["TranscriptStrand", [0]],
                     ["VerificationStatus", [0]], ["NullableZeroBasedIntegerColumn", [0]]]
+
+
+_BASES = None
+
+
+def parents_of(spec):
+    """source-level direct base classes (that are column classes) of the slot's class; for a synthesised class, its parts"""
+    global _BASES
+    if _BASES is None:
+        import ast
+        import os
+        _BASES = {}
+        repo = os.environ.get("VERIF_REPO", "/repo")
+        for fn in ("column.py", "column_types.py"):
+            try:
+                tree = ast.parse(open(os.path.join(repo, "maflib", fn)).read())
+            except (OSError, SyntaxError):
+                continue
+            for node in tree.body:
+                if isinstance(node, ast.ClassDef):
+                    _BASES[node.name] = [b.id for b in node.bases if isinstance(b, ast.Name)]
+    if spec[0] == "mix":
+        return [spec[2][1]] if spec[2][0] == "src" else []
+    known = set(SRC_CLASSES) | {"MafColumnRecord"}
+    return [b for b in _BASES.get(spec[1], []) if b in known]
 
 
 def kind_odd_value(rng, d):
@@ -718,6 +768,14 @@ def gen_write(rng, annots=None, strict_share=0.8):
 
     def perturb_class(i):
         r = rng.random()
+        ps = parents_of(slots[i]["cls"])
+        if ps and rng.random() < 0.3:
+            # a direct parent class of the column's class: weaker rules, values the parent admits
+            slots[i]["cls"] = ["src", rng.choice(ps)]
+            if rng.random() < 0.8:
+                slots[i]["value"] = kind_odd_value(rng, cols[i][1]) if i < len(cols) else rng.choice(ODD_VALUES)
+            hit.append(i)
+            return
         if r < 0.25:
             # a foreign nullable class holding its own null value
             c, v = rng.choice(NULLABLE_FOREIGN)
